@@ -38,6 +38,7 @@ func main() {
 	worker := flag.Bool("worker", false, "internal: analyse one configuration and print JSON")
 	cfgID := flag.String("config", "K1", "internal/debug: build configuration")
 	dump := flag.String("dump", "", "debug: dump terms and facts of functions whose name contains this string")
+	codec := flag.String("codec", "", "debug: list the codec events of functions whose name contains this string")
 	bounds := flag.String("bounds", "", "debug: list the BOUND obligations of functions whose name contains this string")
 	noEvidence := flag.Bool("no-evidence", false, "do not write evidence files (self test on scratch copies)")
 	flag.Parse()
@@ -50,6 +51,21 @@ func main() {
 	}
 	if *dump != "" {
 		debugDump(*repo, *cfgID, *dump)
+		return
+	}
+	if *codec != "" {
+		cfg, _ := an.ConfigByID(*cfgID)
+		p, err := an.Load(*repo, cfg)
+		if err != nil {
+			fmt.Fprintln(os.Stderr, err)
+			os.Exit(2)
+		}
+		for _, fn := range p.SrcFuncs() {
+			if !strings.Contains(fn.String(), *codec) {
+				continue
+			}
+			fmt.Println(an.FuncName(fn), an.EventSigs(p.CodecEvents(fn)))
+		}
 		return
 	}
 	if *bounds != "" {
